@@ -22,6 +22,7 @@ P_BACKSLASH = pred(lambda c: c == "\\")
 P_LINEBREAK = pred(lambda c: c in "\n\r")
 P_NUL = pred(lambda c: c == "\0")
 P_DQUOTE = pred(lambda c: c == '"')
+P_TOML_CTRL = pred(lambda c: (ord(c) < 0x20 and c != "\t") or ord(c) == 0x7F)
 
 
 def any_input_has(p):
@@ -49,4 +50,5 @@ CLASSES = {
     "linebreak": any_input_has(P_LINEBREAK),
     "nul": any_input_has(P_NUL),
     "dquote": any_input_has(P_DQUOTE),
+    "toml_control": any_input_has(P_TOML_CTRL),
 }
